@@ -7,7 +7,11 @@ if [ -n "$(git -C /repo status --porcelain)" ]; then echo "/repo is not clean"; 
 git -C /repo apply /verif/seeded/$id/patch.diff || { echo "patch does not apply"; exit 2; }
 mkdir -p work/seeded
 for c in "$@"; do
+  # evidence files describe runs on the unchanged tree only: keep them
+  cp evidence/$c.json work/seeded/evidence.$c.keep 2>/dev/null
   ./check $c > work/seeded/$id.$c.out 2>&1; rc=$?
+  cp evidence/$c.json work/seeded/$id.$c.evidence.json 2>/dev/null
+  cp work/seeded/evidence.$c.keep evidence/$c.json 2>/dev/null
   echo "== $id vs $c: rc=$rc"; grep -E "^\[check\]|^VIOLATION|^KNOWN-FINDING" work/seeded/$id.$c.out | cut -c1-220 | head -6
 done
 git -C /repo checkout -- .
